@@ -1142,10 +1142,30 @@ Print Assumptions C18_semver_range_reparse_parsed.
 
 (* ====== ties to the source: BEGIN (written by bin/mkties) ====== *)
 (* The Go functions named here are translated into Gallina from /repo's source on every run
-   (tools/gen/code.go -> Gen/Code/<Eco>.v); Tie/<Eco>.v, Tie/<Eco>Range.v prove each translation equal to the
-   model the theorems above speak about.  If the code changes so that a tie no longer holds,
-   this file no longer checks. *)
-From Verif.Tie Require Alpine Alpm Apache Cargo Composer Conan Cran Debian Gem Gentoo Github Golang Hex Mattermost Npm Nuget Pypi Rpm Semver.
+   (tools/gen -> Gen/Code/<Eco>.v for loop-free functions, Gen/Loops/<Eco>.v for functions with
+   loops and index expressions, where a panic is Panic and a loop takes fuel); Tie/<Eco>.v,
+   Tie/<Eco>Range.v and Tie/Loops/<Eco>.v prove each translation equal to the model the theorems
+   above speak about (and, for the loop functions: no panic, termination within a linear bound).
+   If the code changes so that a tie no longer holds, this file no longer checks. *)
+Require Verif.Tie.Alpine.
+Require Verif.Tie.Alpm.
+Require Verif.Tie.Apache.
+Require Verif.Tie.Cargo.
+Require Verif.Tie.Composer.
+Require Verif.Tie.Conan.
+Require Verif.Tie.Cran.
+Require Verif.Tie.Debian.
+Require Verif.Tie.Gem.
+Require Verif.Tie.Gentoo.
+Require Verif.Tie.Github.
+Require Verif.Tie.Golang.
+Require Verif.Tie.Hex.
+Require Verif.Tie.Mattermost.
+Require Verif.Tie.Npm.
+Require Verif.Tie.Nuget.
+Require Verif.Tie.Pypi.
+Require Verif.Tie.Rpm.
+Require Verif.Tie.Semver.
 Definition C18_tie_alpine_Version_String := Verif.Tie.Alpine.tie_alpine_Version_String.
 Print Assumptions C18_tie_alpine_Version_String.
 Definition C18_tie_alpm_string := Verif.Tie.Alpm.tie_alpm_string.
